@@ -411,6 +411,26 @@ func (s *Server) Env(op EnvOp) int {
 				setPath(o, p, op.Value)
 			}
 		})
+	case "terminate":
+		// deleted while a finalizer holds it: the object stays with a deletionTimestamp
+		if cur, ok := s.store[key]; ok {
+			fs := finalizers(cur)
+			has := false
+			for _, f := range fs {
+				if f == "verif/hold" {
+					has = true
+				}
+			}
+			if !has {
+				o := CopyObj(cur)
+				setFinalizers(o, append(fs, "verif/hold"))
+				meta(o)["resourceVersion"] = metaStr(cur, "resourceVersion")
+				s.updateLocked(rd, ns, name, "", o)
+			}
+			code, _, _ = s.deleteLocked(rd, ns, name, DeleteOpts{})
+		} else {
+			code = 404
+		}
 	case "heal":
 		// the child's own controller reports it healthy: Ready=True and (unless noOG) it has
 		// observed its latest generation.  skipIfRevNot: leave it alone unless spec.rev has that value.
